@@ -416,6 +416,8 @@ class EventDispatcher(object):
                 )
             )
             message.acknowledge(multiple=False)
+            # The message has been dropped so it must no longer be retained.
+            self.unacknowledged_messages.pop(message.message_id, None)
 
     def acknowledge(self, id):
         """
